@@ -279,6 +279,49 @@ func checkC13(c *fw.Ctx) {
 		ok := len(stores) == 1 && strings.Contains(fw.Sig(stores[0].Val), want)
 		c.Check(ok, rule, "the verification request's "+f+" is "+strings.Trim(want, ".("), c.P.Pos(verify.Pos()), "", fmt.Sprintf("%d stores / value mismatch", len(stores)))
 	}
+	// the destination that is checked is the destination that is verified (the reconstructed
+	// field), not a second reading of the header: with several Authorization headers the two differ
+	{
+		construct := "the destination that is checked is the one that is verified"
+		nChecked, bad := 0, ""
+		for _, di := range fw.DeepInstrs(verify, func(f *ssa.Function) bool { return f == read }) {
+			var x ssa.Value
+			switch ins := di.Instr.(type) {
+			case *ssa.Call:
+				// isLocalServerName(x)
+				if !ins.Call.IsInvoke() && ins.Call.StaticCallee() == nil && len(ins.Call.Args) == 1 && strings.Contains(fw.SigIn(di.Fr, ins.Call.Value), "param:isLocalServerName") {
+					x = ins.Call.Args[0]
+				}
+			case *ssa.BinOp:
+				if ins.Op == token.EQL || ins.Op == token.NEQ {
+					sx, sy := strings.TrimPrefix(fw.SigIn(di.Fr, ins.X), "*&"), strings.TrimPrefix(fw.SigIn(di.Fr, ins.Y), "*&")
+					if sx == "param:destination" {
+						x = ins.Y
+					} else if sy == "param:destination" {
+						x = ins.X
+					}
+				}
+			}
+			if x == nil {
+				continue
+			}
+			sx := fw.SigIn(di.Fr, x)
+			switch {
+			case strings.Contains(sx, "readHTTPRequest(param:req)#0.fields.Destination"):
+				nChecked++
+			case strings.Contains(sx, "ParseAuthorization("):
+				bad = sx
+			}
+		}
+		switch {
+		case bad != "":
+			c.Fail(rule, construct, c.P.Pos(verify.Pos()), "the destination check is applied to "+bad+", a separate reading of the Authorization header, not to the destination that is serialised and verified: a request carrying several Authorization headers is checked against one destination and verified for another")
+		case nChecked > 0:
+			c.Ok(rule, construct, c.P.Pos(verify.Pos()), fmt.Sprintf("%d test(s) on the reconstructed field", nChecked))
+		default:
+			c.Undecided(rule, construct, "no destination test was recognised in VerifyHTTPRequest and its helpers")
+		}
+	}
 	// destination: table + default only when absent
 	dest := "*gmsl/fclient.readHTTPRequest(param:req)#0.fields.Destination"
 	tbl, err := fw.ExtractTable(verify, 0)
@@ -291,10 +334,14 @@ func checkC13(c *fw.Ctx) {
 				if atom == "(param:destination != "+dest+")" {
 					return a["same"] != "true", true
 				}
-				if strings.HasSuffix(atom, ` == "")`) {
+				if strings.HasSuffix(atom, ` == "")`) && strings.Contains(atom, ".Origin(") {
 					return false, true // the origin is present
 				}
-				return true, true // every later check passes
+				// the later checks pass: error results are nil, the first result carries no error, the origin is valid
+				if strings.HasSuffix(atom, "#1 == nil)") || strings.HasSuffix(atom, "[0].Error == nil)") || (strings.Contains(atom, "ParseAndValidateServerName(") && strings.HasSuffix(atom, "#2")) {
+					return true, true
+				}
+				return false, false // a condition the rule does not know
 			},
 			// the destination test may live in a helper taking the destination as an argument
 			expand: func(atom string) bool { return strings.Contains(atom, ".fields.Destination") },
@@ -346,7 +393,7 @@ func checkC13(c *fw.Ctx) {
 				absent := func(s string) bool {
 					return strings.Contains(s, "("+dest+` == "")`) && !strings.Contains(s, "!("+dest+` == "")`) || strings.Contains(s, "!("+dest+` != "")`)
 				}
-				if absent(conds) && fw.Sig(st.Val) == "param:destination" {
+				if absent(conds) && strings.TrimPrefix(fw.Sig(st.Val), "*&") == "param:destination" {
 					c.Ok(rule, construct, c.P.Pos(fw.InstrPos(st)), "")
 					continue
 				}
@@ -358,7 +405,7 @@ func checkC13(c *fw.Ctx) {
 					verdict, detail = "undecided", "the stored destination could not be split into alternatives"
 				}
 				for _, r := range rows {
-					vs := fw.Sig(r.Val)
+					vs := strings.TrimPrefix(fw.Sig(r.Val), "*&") // a parameter captured by a closure is read through its variable
 					switch {
 					case vs == dest:
 					case vs == "param:destination":
